@@ -656,8 +656,8 @@ End Pres.
 (* attempt executes, whether a done channel is given or not.                                                         *)
 (* ---------------------------------------------------------------------------------------------- *)
 Definition flip_cfg : cfg :=
-  mkcfg [ {| deps := []; cof := false; cos := false; rlimit := 1; pre := true; sfail := false; repeat := false |};
-          {| deps := [0]; cof := false; cos := false; rlimit := 0; pre := true; sfail := false; repeat := false |} ]
+  mkcfg [ {| deps := []; cof := false; cos := false; rlimit := 1; pre := true; sfail := false; repeat := false; cfails := 0 |};
+          {| deps := [0]; cof := false; cos := false; rlimit := 0; pre := true; sfail := false; repeat := false; cfails := 0 |} ]
         1 false false.
 Definition flip_exec : list label :=
   [LCommit 0; LLaunch 0; WTest 0; WExecStart 0; WExecEnd 0 false; WAfter 0 false; WRetryWake 0;
